@@ -174,14 +174,29 @@ Definition gs_choose (failno single : bool) (p : parser) (cfg : ns) (keys : list
 Definition dels (v : node) (keys : list str) (c : ns) : ns :=
   fold_left (fun c k => if node_is_str v k then c else del k c) keys c.
 
+(* ---------- the tree the model describes ----------
+   fx_falsy = false, fx_cfg = false : the pinned tree (variant `orig`), bugs included.
+   fx_falsy = true : after fixes/C17-falsy-subcommand-name-keeps-all-sections.patch — in the failing
+     mode every chosen value that is not a declared subcommand is rejected, also for optional
+     subcommands (`if subcommand not in action._name_parser_map`).
+   fx_cfg = true : after fixes/C17-cfg-naming-other-subcommand-drops-settings.patch — the sections of
+     the other subcommands are only removed when `fail_no_subcommand or require_single`, i.e. not
+     while ActionConfigFile.apply_config loads a `--cfg` value on its own. *)
+Record variant := { fx_falsy : bool; fx_cfg : bool }.
+Definition orig : variant := {| fx_falsy := false; fx_cfg := false |}.
+
+Section Variant.
+Variable fx : variant.
+
 (* "Remove extra subcommand settings", `if subcommand: subcommand_keys = [subcommand]`, required check *)
-Definition gs_finish (failno : bool) (p : parser) (keys : list str) (cfg1 : ns) (sub : option node)
+Definition gs_finish (failno single : bool) (p : parser) (keys : list str) (cfg1 : ns) (sub : option node)
   : res (ns * list node) :=
-  let trueish := match sub with Some v => truthy v | None => false end in
-  (* if subcommand and len(subcommand_keys) > 1: delete the other sections *)
+  (* if subcommand and len(subcommand_keys) > 1 [fx_cfg: and (fail_no_subcommand or require_single)]:
+       delete the other sections *)
+  let removing := negb (fx_cfg fx) || failno || single in
   let cfg2 :=
     match sub with
-    | Some v => if truthy v && (1 <? length keys)%nat then dels v keys cfg1 else cfg1
+    | Some v => if truthy v && (1 <? length keys)%nat && removing then dels v keys cfg1 else cfg1
     | None => cfg1
     end in
   (* if subcommand: subcommand_keys = [subcommand] *)
@@ -192,7 +207,8 @@ Definition gs_finish (failno : bool) (p : parser) (keys : list str) (cfg1 : ns) 
   if failno then
     match sub with
     | None => if p_req p then Err NoSubcommand else Ok (cfg2, [])
-    | Some v => if p_req p && negb (in_map p v) then Err NoSubcommand else Ok (cfg2, keys2)
+    (* if action._required and subcommand not in action._name_parser_map  [fx_falsy: without `action._required and`] *)
+    | Some v => if (p_req p || fx_falsy fx) && negb (in_map p v) then Err NoSubcommand else Ok (cfg2, keys2)
     end
   else Ok (cfg2, keys2).
 
@@ -201,7 +217,7 @@ Definition get_subcommands (failno single : bool) (p : parser) (cfg : ns) : res 
   (* subcommand_keys = [k for k in action.choices if isinstance(cfg.get(prefix+k), Namespace)] *)
   let keys := filter (fun k => is_ns (get k cfg)) (p_names p) in
   let cs := gs_choose failno single p cfg keys in
-  gs_finish failno p keys (fst cs) (snd cs).
+  gs_finish failno single p keys (fst cs) (snd cs).
 
 (* ---------- _ActionSubCommands.handle_subcommands ----------
    env = Some e : merge `subparser.parse_env(...)` (penv);  else defaults: merge get_defaults *)
@@ -518,3 +534,5 @@ Definition parse (fuel : nat) (p : parser) (x : input) : res ns :=
   | EObject c => parse_cfg fuel (i_env x) p c
   | EString c => parse_cfg fuel (i_env x) p c
   end.
+
+End Variant.
